@@ -19,9 +19,16 @@ Definition anchor_or (r : rule) (sd : Z) : Z :=
   match safe_anchor r sd with Some d => d | None => 0 end.
 
 (* the generated _fetch_forward of the pattern [r], over a given rrule stream *)
-Definition g_forward_of (r : rule) (rrule_of : Z -> list Z) (a b : option Z) : res (list ivl) :=
+Definition g_forward_of (r : rule) (anchor : Z -> Z) (rrule_of : Z -> list Z) (a b : option Z)
+  : res (list ivl) :=
   g_recur_fetch_forward (DT := Z) (r_freq r) (r_interval r) (r_dur r) (r_exdates r)
-                        (local_day (r_zone r)) (anchor_or r) (fun d => d) rrule_of (occ_ivl r) a b.
+                        (local_day (r_zone r)) anchor (fun d => d) rrule_of (occ_ivl r) a b.
+
+(* an implementation of self._get_safe_anchor that agrees with the model where the model succeeds *)
+Definition anchor_ok (r : rule) (anchor : Z -> Z) : Prop :=
+  forall sd d, safe_anchor r sd = Some d -> anchor sd = d.
+Lemma anchor_or_ok r : anchor_ok r (anchor_or r).
+Proof. intros sd d H. unfold anchor_or. rewrite H. reflexivity. Qed.
 
 (* one pass of the body of "for occurrence in rules", on the interval of the occurrence *)
 Definition fwd_step (r : rule) (a b : Z) (i : ivl) : list ivl * unit * ctl :=
@@ -87,19 +94,20 @@ Definition model_rrule (r : rule) (b : Z) (dtstart : Z) : list Z :=
 
 (* HEADLINE: whenever the model's forward fetch succeeds, the code's _fetch_forward (as
    translated from its source text), run on the model's rrule stream, returns the same list *)
-Theorem g_recur_fetch_forward_eq (r : rule) (a b : Z) (l : list ivl) :
+Theorem g_recur_fetch_forward_eq (r : rule) (anchor : Z -> Z) (a b : Z) (l : list ivl) :
+  anchor_ok r anchor ->
   fetch_forward r a b = Ok l ->
-  g_forward_of r (model_rrule r b) (Some a) (Some b) = RDone l.
+  g_forward_of r anchor (model_rrule r b) (Some a) (Some b) = RDone l.
 Proof.
   unfold fetch_forward, g_forward_of, g_recur_fetch_forward. cbv zeta.
-  intro H.
+  intros Ha H.
   match goal with
   | |- context [local_day (r_zone r) (a - ?lb)] =>
     replace lb with (lookback_buffer r)
       by (unfold lookback_buffer; symmetry; apply (lookback_ladder (r_freq r) (r_interval r) (r_dur r)))
   end.
-  unfold anchor_or.
-  destruct (safe_anchor r (local_day (r_zone r) (a - lookback_buffer r))) as [dtstart|]; [|discriminate].
+  destruct (safe_anchor r (local_day (r_zone r) (a - lookback_buffer r))) as [dtstart|] eqn:Ea; [|discriminate].
+  rewrite (Ha _ _ Ea).
   f_equal. unfold model_rrule. cbv zeta.
   rewrite (stream_go_run r (rr_of r dtstart) a b _ _ ) with (l := l); [apply app_nil_r| |exact H].
   intros d i Ei. unfold occ_ivl. rewrite Ei.
@@ -111,8 +119,8 @@ Proof.
 Qed.
 
 (* start=None raises ValueError, whatever the rest *)
-Theorem g_recur_fetch_forward_unbounded (r : rule) rr b :
-  g_forward_of r rr None b = RRaise ValueError.
+Theorem g_recur_fetch_forward_unbounded (r : rule) anchor rr b :
+  g_forward_of r anchor rr None b = RRaise ValueError.
 Proof. reflexivity. Qed.
 
 (* ------------------------------------------------------------------------------------------ *)
@@ -169,10 +177,18 @@ Proof. destruct f; reflexivity. Qed.
 (* HEADLINE: whenever the model's reverse fetch succeeds, the code's _fetch_reverse (as translated
    from its source text: the `while` pager, the two-condition chunk filter, `reversed`), with
    the same fuel, returns the same list *)
-Theorem g_recur_fetch_reverse_eq (r : rule) (start : option Z) (e : Z) (l : list ivl) :
+Definition fwd_ok (r : rule) (fwd : Z -> Z -> list ivl) : Prop :=
+  forall cs ce l, fetch_forward r cs ce = Ok l -> fwd cs ce = l.
+Lemma fwd_or_ok r : fwd_ok r (fwd_or r).
+Proof. intros cs ce l H. unfold fwd_or. rewrite H. reflexivity. Qed.
+
+Theorem g_recur_fetch_reverse_eq (r : rule) (fwd : Z -> Z -> list ivl) (start : option Z) (e : Z)
+        (l : list ivl) :
+  fwd_ok r fwd ->
   fetch_reverse_opt r start e = Ok l ->
-  g_recur_fetch_reverse (reverse_fuel r start e) (r_freq r) (fwd_or r) start (Some e) = RDone l.
+  g_recur_fetch_reverse (reverse_fuel r start e) (r_freq r) fwd start (Some e) = RDone l.
 Proof.
+  intro Hfwd.
   unfold fetch_reverse_opt, g_recur_fetch_reverse, reverse_fuel. cbv zeta.
   rewrite chunk_ladder.
   change (10 * 365 * 86400) with (10 * 365 * DAY).
@@ -191,7 +207,7 @@ Proof.
     try (injection H as <-; reflexivity).
   set (cs := Z.max eff (cur - chunk_size (r_freq r))) in *.
   destruct (fetch_forward r cs cur) as [l0| |] eqn:Ef; try discriminate.
-  assert (Hfw : fwd_or r cs cur = l0) by (unfold fwd_or; rewrite Ef; reflexivity).
+  assert (Hfw : fwd cs cur = l0) by (apply Hfwd; exact Ef).
   rewrite Hfw.
   pose proof (fetch_forward_starts r cs cur l0 Ef) as Hst.
   match goal with
@@ -222,15 +238,27 @@ Print Assumptions g_recur_fetch_reverse_eq.
 Print Assumptions g_recur_fetch_reverse_unbounded.
 
 (* ------------------------------------------------------------------------------------------ *)
-(* _get_safe_anchor: base-anchor selection, daily and weekly branches                          *)
+(* _get_safe_anchor                                                                            *)
 
 (* Model/Recur.v's view of the datetime values this function handles: the anchor is used through
    its date only (and then set to midnight by the caller), so DT = DATE = a day number, a
-   timedelta = a number of days.  1969-12-29 is day -3, the epoch day 0. *)
-Definition g_safe_anchor_of (r : rule) (sd : Z) : res Z :=
-  g_recur_safe_anchor (DT := Z) (DATE := Z) (TD := Z)
+   timedelta = a number of days.  1969-12-29 is day -3, the epoch day 0.
+   datetime.replace(year=y[, month=m]) keeps the day of the month and raises ValueError (None
+   here) when that day does not exist in the target month or the year is below 1. *)
+Definition day_year (d : Z) : Z := let '(y, _, _) := civil_from_days d in y.
+Definition day_month (d : Z) : Z := let '(_, m, _) := civil_from_days d in m.
+Definition day_replace_ym (base y m : Z) : option Z :=
+  let '(_, _, bd) := civil_from_days base in
+  if (1 <=? y) && (bd <=? dim y m) then Some (days_from_civil y m bd) else None.
+Definition day_replace_y (base y : Z) : option Z :=
+  let '(_, bm, bd) := civil_from_days base in
+  if (1 <=? y) && (bd <=? dim y bm) then Some (days_from_civil y bm bd) else None.
+
+Definition g_safe_anchor_of (fuel : nat) (r : rule) (sd : Z) : res Z :=
+  g_recur_safe_anchor (DT := Z) (DATE := Z) (TD := Z) fuel
     (r_freq r) (r_interval r) (r_anchor r) 0
-    (local_day (r_zone r)) days_from_civil (fun d => d) Z.sub (fun t => t) (fun d => d) (fun w => 7 * w) Z.add sd.
+    (local_day (r_zone r)) days_from_civil (fun d => d) Z.sub (fun t => t) (fun d => d) (fun w => 7 * w) Z.add
+    day_year day_month day_replace_ym day_replace_y sd.
 
 Lemma base_anchor_sel r :
   (if negb (is_none (r_anchor r)) then local_day (r_zone r) (ozd (r_anchor r))
@@ -240,26 +268,97 @@ Proof.
   destruct (r_freq r); reflexivity.
 Qed.
 
-(* HEADLINE: for daily and weekly patterns the translated _get_safe_anchor returns the model's anchor *)
-Theorem g_recur_safe_anchor_eq (r : rule) (sd : Z) :
-  r_freq r = Daily \/ r_freq r = Weekly ->
-  match safe_anchor r sd with
-  | Some d => g_safe_anchor_of r sd = RDone d
-  | None => False
-  end.
+(* the `while True: try: return base_anchor.replace(year=, month=) except ValueError:` loop *)
+Lemma month_back_run k bd cond (body : Z * Z * Z -> step (Z * Z * Z) (res Z)) post :
+  (forall s, cond s = true) ->
+  (forall abs,
+      body (abs, abs / 12, abs mod 12 + 1) =
+      if (1 <=? abs / 12) && (bd <=? dim (abs / 12) (abs mod 12 + 1))
+      then SRet (RDone (days_from_civil (abs / 12) (abs mod 12 + 1) bd))
+      else if abs / 12 <? 1 then SRet (RRaise ValueError)
+           else SCont (abs - k, (abs - k) / 12, (abs - k) mod 12 + 1)) ->
+  forall fuel abs d,
+    month_back fuel k bd abs = Some d ->
+    iter_while (S fuel) cond body post (abs, abs / 12, abs mod 12 + 1) = RDone d.
 Proof.
-  unfold g_safe_anchor_of, g_recur_safe_anchor, safe_anchor. cbv zeta.
-  rewrite base_anchor_sel.
-  intros [E|E]; rewrite E; cbn [freq_eqb]; reflexivity.
+  intros Hc Hb. induction fuel as [|f IH]; intros abs d H; cbn [month_back] in H;
+    cbn [iter_while]; rewrite Hc, Hb;
+    destruct ((1 <=? abs / 12) && (bd <=? dim (abs / 12) (abs mod 12 + 1)));
+    try (injection H as <-; reflexivity);
+    destruct (abs / 12 <? 1); try discriminate.
+  apply IH. exact H.
 Qed.
 
-(* monthly / yearly: the untranslated branches are an explicit RSkip, not a value *)
-Theorem g_recur_safe_anchor_skipped (r : rule) (sd : Z) :
-  r_freq r = Monthly \/ r_freq r = Yearly -> g_safe_anchor_of r sd = RSkip.
+(* the `while True: try: return base_anchor.replace(year=) except ValueError:` loop *)
+Lemma year_back_run k bm bd cond (body : Z -> step Z (res Z)) post :
+  (forall s, cond s = true) ->
+  (forall y,
+      body y =
+      if (1 <=? y) && (bd <=? dim y bm) then SRet (RDone (days_from_civil y bm bd))
+      else if y <? 1 then SRet (RRaise ValueError) else SCont (y - k)) ->
+  forall fuel y d,
+    year_back fuel k bm bd y = Some d ->
+    iter_while (S fuel) cond body post y = RDone d.
 Proof.
-  unfold g_safe_anchor_of, g_recur_safe_anchor. cbv zeta.
-  intros [E|E]; rewrite E; reflexivity.
+  intros Hc Hb. induction fuel as [|f IH]; intros y d H; cbn [year_back] in H;
+    cbn [iter_while]; rewrite Hc, Hb;
+    destruct ((1 <=? y) && (bd <=? dim y bm));
+    try (injection H as <-; reflexivity);
+    destruct (y <? 1); try discriminate.
+  apply IH. exact H.
+Qed.
+
+(* HEADLINE: whenever the model's safe_anchor succeeds, the translated _get_safe_anchor (all four
+   frequencies, including the two step-back loops) returns the same day, with the model's fuel *)
+Theorem g_recur_safe_anchor_eq (r : rule) (sd d : Z) :
+  safe_anchor r sd = Some d -> g_safe_anchor_of (S BACK_FUEL) r sd = RDone d.
+Proof.
+  unfold g_safe_anchor_of, g_recur_safe_anchor, safe_anchor. cbv zeta.
+  rewrite base_anchor_sel. generalize BACK_FUEL as fuel. intro fuel.
+  destruct (r_freq r); cbn [freq_eqb].
+  - intro H. injection H as <-. reflexivity.
+  - intro H. injection H as <-. reflexivity.
+  - unfold day_year, day_month.
+    destruct (civil_from_days (base_day r)) as [[by_ bm] bd] eqn:Eb.
+    destruct (civil_from_days sd) as [[sy sm] sdd] eqn:Es.
+    intro H. apply (month_back_run (r_interval r) bd); [intros [[? ?] ?]; reflexivity| |exact H].
+    intro abs. unfold day_replace_ym. rewrite Eb.
+    destruct ((1 <=? abs / 12) && (bd <=? dim (abs / 12) (abs mod 12 + 1))); reflexivity.
+  - unfold day_year.
+    destruct (civil_from_days (base_day r)) as [[by_ bm] bd] eqn:Eb.
+    destruct (civil_from_days sd) as [[sy sm] sdd] eqn:Es.
+    intro H. apply (year_back_run (r_interval r) bm bd); [reflexivity| |exact H].
+    intro y. unfold day_replace_y. rewrite Eb.
+    destruct ((1 <=? y) && (bd <=? dim y bm)); reflexivity.
 Qed.
 
 Print Assumptions g_recur_safe_anchor_eq.
-Print Assumptions g_recur_safe_anchor_skipped.
+
+(* the two translated functions composed: _fetch_forward calling the translated _get_safe_anchor *)
+Definition gen_anchor (r : rule) (sd : Z) : Z :=
+  match g_safe_anchor_of (S BACK_FUEL) r sd with RDone d => d | _ => 0 end.
+
+Corollary g_recur_fetch_forward_composed_eq (r : rule) (a b : Z) (l : list ivl) :
+  fetch_forward r a b = Ok l ->
+  g_forward_of r (gen_anchor r) (model_rrule r b) (Some a) (Some b) = RDone l.
+Proof.
+  apply g_recur_fetch_forward_eq. intros sd d H. unfold gen_anchor.
+  rewrite (g_recur_safe_anchor_eq r sd d H). reflexivity.
+Qed.
+
+Print Assumptions g_recur_fetch_forward_composed_eq.
+
+(* all three composed: _fetch_reverse paging over the translated _fetch_forward, which calls the
+   translated _get_safe_anchor *)
+Definition gen_fwd (r : rule) (cs ce : Z) : list ivl :=
+  match g_forward_of r (gen_anchor r) (model_rrule r ce) (Some cs) (Some ce) with RDone l => l | _ => [] end.
+
+Corollary g_recur_fetch_reverse_composed_eq (r : rule) (start : option Z) (e : Z) (l : list ivl) :
+  fetch_reverse_opt r start e = Ok l ->
+  g_recur_fetch_reverse (reverse_fuel r start e) (r_freq r) (gen_fwd r) start (Some e) = RDone l.
+Proof.
+  apply g_recur_fetch_reverse_eq. intros cs ce l' H. unfold gen_fwd.
+  rewrite (g_recur_fetch_forward_composed_eq r cs ce l' H). reflexivity.
+Qed.
+
+Print Assumptions g_recur_fetch_reverse_composed_eq.
